@@ -16,10 +16,13 @@ def pipe_inputs(tier: str, seed: int) -> List[Dict[str, Any]]:
     return rb.domain_inputs(tier, seed, "XR", scale=0.25 if tier == "quick" else 1.0)
 
 
-def run_pipeline(inputs: List[Dict[str, Any]], d: str, jobs: int) -> Dict[str, Any]:
-    res = rb.record_domain(inputs, os.path.join(d, "pl"), jobs=jobs, shards=jobs, stages=True, events=False)
-    live = [r for r in res if r["ncases"]]
-    for r in live:
+def record(inputs: List[Dict[str, Any]], outdir: str, jobs: int) -> List[Dict[str, Any]]:
+    """Run the real pipeline over `inputs` (in this process's hash seed), write one {rank, cases} file per shard."""
+    res = rb.record_domain(inputs, outdir, jobs=jobs, shards=jobs, stages=True, events=False)
+    out = []
+    for r in res:
+        if not r["ncases"]:
+            continue
         with open(r["path"]) as f:
             cases = json.load(f)
         names = set()
@@ -28,20 +31,48 @@ def run_pipeline(inputs: List[Dict[str, Any]], d: str, jobs: int) -> Dict[str, A
                 names |= set(st["H"])
         rank = edits.rank_table([{"H": {n: {"jt": []} for n in names}}], kmax=90)
         slim = [{"root": c["root"], "stages": [{"name": st["name"], "H": st["H"], "ord": st["ord"], "ng": st["ng"]} for st in c["stages"]]} for c in cases]
-        r["_ids"] = [c["id"] for c in cases]
         with open(r["path"], "w") as f:
             json.dump({"rank": rank, "cases": slim}, f, separators=(",", ":"))
-    results = tlc.run_shards("TracePipeline", CFG, [{"CASES": r["path"]} for r in live], jobs=jobs, workers=1, timeout=6000, heap="3g")
+        out.append({"path": r["path"], "ncases": r["ncases"], "ids": [c["id"] for c in cases]})
+    return out
+
+
+def validate(shards: List[Dict[str, Any]], jobs: int) -> Dict[str, Any]:
+    results = tlc.run_shards("TracePipeline", CFG, [{"CASES": r["path"]} for r in shards], jobs=jobs, workers=1, timeout=6000, heap="3g")
     tlc.require_ok(results, "TracePipeline")
-    out: Dict[str, Any] = {"states": 0, "behaviours": sum(r["ncases"] for r in live), "drift": []}
-    for r, tr in zip(live, results):
+    out: Dict[str, Any] = {"states": 0, "behaviours": sum(r["ncases"] for r in shards), "drift": []}
+    for r, tr in zip(shards, results):
         out["states"] += tr.distinct
         if tr.distinct != r["ncases"]:
             raise tlc.MachineryError("TracePipeline evaluated %d of %d behaviours" % (tr.distinct, r["ncases"]))
         for v in tr.violations:
             st = tlc.parse_state(v["states"][0])
-            out["drift"].append({"id": r["_ids"][st["tid"] - 1], "what": sorted(st["drift"])})
+            out["drift"].append({"id": r["ids"][st["tid"] - 1], "what": sorted(st["drift"])})
     return out
+
+
+def run_pipeline(inputs: List[Dict[str, Any]], d: str, jobs: int) -> Dict[str, Any]:
+    return validate(record(inputs, os.path.join(d, "pl"), jobs), jobs)
+
+
+def run_pipeline_under_seed(inputs: List[Dict[str, Any]], d: str, jobs: int, hashseed: int) -> Dict[str, Any]:
+    """The same, with the real code running in a separate interpreter under PYTHONHASHSEED=hashseed."""
+    import subprocess
+    import sys
+
+    from ..common import VERIF
+
+    od = os.path.join(d, "pl-seed%d" % hashseed)
+    os.makedirs(od, exist_ok=True)
+    ip = os.path.join(od, "inputs.json")
+    with open(ip, "w") as f:
+        json.dump(inputs, f)
+    env = dict(os.environ, PYTHONHASHSEED=str(hashseed), PYTHONPATH=VERIF + os.pathsep + os.environ.get("VERIF_REPO", "/repo"))
+    r = subprocess.run([sys.executable, "-m", "harness.pipe_record", ip, od, str(jobs)], env=env, cwd=VERIF, capture_output=True, text=True, timeout=6000)
+    if r.returncode != 0:
+        raise tlc.MachineryError("pipe_record failed (seed %s): %s" % (hashseed, r.stderr[-2000:]))
+    with open(os.path.join(od, "shards.json")) as f:
+        return validate(json.load(f), jobs)
 
 
 def attach(rep: Any, tier: str, seed: int, d: str, jobs: int) -> None:
